@@ -749,6 +749,7 @@ package checkers
 //@   nosafety node shapes are the subject of the C01 sweep
 //@   requires x != nil && typeIs(x.X, "*ast.StarExpr")
 //@   ensures @unary-operands-keep-their-parentheses (typeIs(cast(x.X, "*ast.StarExpr").X, "*ast.StarExpr") || typeIs(cast(x.X, "*ast.StarExpr").X, "*ast.UnaryExpr")) ==> typeIs(result, "*ast.ParenExpr")
+//@   ensures @never-a-bare-unary-expression !typeIs(result, "*ast.StarExpr") && !typeIs(result, "*ast.UnaryExpr")
 
 // loops that are neither ranges nor counting loops towards a fixed bound name their measure
 //@ func (*typeAssertChainChecker).countTypeAssertions
@@ -756,3 +757,20 @@ package checkers
 //@   loop 1 decreases astDepth(stmt)
 //@ func (*badRegexpChecker).checkCharClassDups
 //@   loop 2 decreases len(ranges) - i
+
+// sqlQuery (C07): the selector that positions the diagnostic is a real one - funcIsQuery refuses the all-zero node that
+// astcast.ToSelectorExpr returns for a callee that is not a selector
+//@ func (*sqlQueryChecker).funcIsQuery
+//@   prop C07 C01
+//@   nosafety node shapes are the subject of the C01 sweep
+//@   requires c != nil && ctxOK(c.ctx) && funcExpr != nil
+//@   ensures @only-real-selectors result ==> funcExpr.Sel != nil
+
+// mapKey (C07): the key that positions the whitespace diagnostic is a literal of the tree - the all-zero node that
+// astcast.ToBasicLit returns for a non-literal key has no text and is skipped by the length test
+//@ func (*mapKeyChecker).checkWhitespace
+//@   prop C07
+//@   nosafety node shapes are the subject of the C01 sweep
+//@   astvalid the keys are nodes of the analysed tree
+//@   requires c != nil && lit != nil
+//@   loop 1 invariant @candidate-is-a-literal-of-the-tree isNilIface(whitespaceKey) || tnode(whitespaceKey)
